@@ -839,3 +839,307 @@ Example min_k_runs :
   (min_k less [50; 31; 90; 12; 70; 35] 3, min_k less [5; 3] (-1), min_k less [5; 3] 7, min_k less [] 2)
   = (Ok [12; 31; 35], Ok [], Ok [3; 5], Ok []).
 Proof. vm_compute. reflexivity. Qed.
+
+(* ------------------------------------------------------------------ SliceStable, Slice *)
+(* Nothing here depends on the algorithm sort.SliceStable / sort.Slice use: the theorems
+   characterise [slice_stable] as the ONLY sorted rearrangement that keeps equivalent items in
+   their original order (slice_stable_unique), and [slice_allowed] as exactly the sorted
+   permutations (slice_spec), for every strict weak order. *)
+Lemma insert_stable_perm less x l : Permutation (insert_stable less x l) (x :: l).
+Proof.
+  induction l as [|y t IH]; cbn [insert_stable]; [apply Permutation_refl|].
+  destruct (less y x); [|apply Permutation_refl].
+  eapply perm_trans; [apply perm_skip; exact IH|apply perm_swap].
+Qed.
+
+Theorem slice_stable_perm : forall less x, Permutation (slice_stable less x) x.
+Proof.
+  intros less x. unfold slice_stable. induction x as [|a t IH]; cbn [fold_right]; [constructor|].
+  eapply perm_trans; [apply insert_stable_perm|apply perm_skip; exact IH].
+Qed.
+
+Lemma Permutation_filter_length (f : Z -> bool) l1 l2 :
+  Permutation l1 l2 -> length (filter f l1) = length (filter f l2).
+Proof.
+  intros HP. induction HP as [|x l l' HP IH|x y l|l l' l'' HP1 IH1 HP2 IH2]; cbn [filter].
+  - reflexivity.
+  - destruct (f x); cbn [length]; congruence.
+  - destruct (f x), (f y); reflexivity.
+  - congruence.
+Qed.
+
+Lemma take_out_perm x : forall l l', take_out x l = Some l' -> Permutation l (x :: l').
+Proof.
+  induction l as [|y t IH]; intros l' H; cbn [take_out] in H; [discriminate|].
+  destruct (x =? y) eqn:E.
+  - apply Z.eqb_eq in E. subst y. injection H as <-. apply Permutation_refl.
+  - destruct (take_out x t) as [t'|] eqn:Et; cbn [option_map] in H; [|discriminate].
+    injection H as <-. eapply perm_trans; [apply perm_skip; apply IH; reflexivity|apply perm_swap].
+Qed.
+
+Lemma take_out_in x : forall l, In x l -> exists l', take_out x l = Some l'.
+Proof.
+  induction l as [|y t IH]; intros HI; [destruct HI|]. cbn [take_out].
+  destruct (x =? y) eqn:E; [eexists; reflexivity|].
+  destruct HI as [->|HI]; [rewrite Z.eqb_refl in E; discriminate|].
+  destruct (IH HI) as [t' Et]. rewrite Et. eexists; reflexivity.
+Qed.
+
+Lemma same_items_perm : forall a b, same_items a b = true <-> Permutation a b.
+Proof.
+  induction a as [|x a IH]; intros b; cbn [same_items].
+  - split.
+    + destruct b; [constructor|discriminate].
+    + intros HP. apply Permutation_nil in HP. subst b. reflexivity.
+  - split.
+    + destruct (take_out x b) as [b'|] eqn:Eb; [|discriminate]. intros H.
+      apply Permutation_sym. eapply perm_trans; [apply take_out_perm; exact Eb|].
+      apply perm_skip. apply Permutation_sym. apply IH. exact H.
+    + intros HP. destruct (take_out_in x b) as [b' Eb].
+      { eapply Permutation_in; [exact HP|left; reflexivity]. }
+      rewrite Eb. apply IH. apply (Permutation_cons_inv (a := x)).
+      eapply perm_trans; [exact HP|apply take_out_perm; exact Eb].
+Qed.
+
+Lemma all2_Forall2 (f : Z -> Z -> bool) : forall a b,
+  all2 f a b = true <-> Forall2 (fun x y => f x y = true) a b.
+Proof.
+  induction a as [|x a IH]; intros [|y b]; cbn [all2]; split; intros H;
+    try discriminate; try (constructor; fail); try (inversion H; fail).
+  - apply andb_true_iff in H. destruct H as [H1 H2]. constructor; [exact H1|apply IH; exact H2].
+  - inversion H; subst. apply andb_true_iff. split; [assumption|apply IH; assumption].
+Qed.
+
+Section StableSort.
+  Variable less : Z -> Z -> bool.
+  Hypothesis SWO : strict_weak less.
+
+  Lemma eqv_refl a : equal_ less a a = true.
+  Proof. unfold equal_. rewrite (sw_irrefl less SWO). reflexivity. Qed.
+
+  Lemma eqv_sym a b : equal_ less a b = equal_ less b a.
+  Proof. unfold equal_. apply andb_comm. Qed.
+
+  (* [less] does not distinguish equivalent items *)
+  Lemma less_eqv_l a a' b : equal_ less a a' = true -> less a b = less a' b.
+  Proof.
+    intros H. apply equal_spec_ in H. destruct H as [H1 H2].
+    destruct (less a b) eqn:E1, (less a' b) eqn:E2; try reflexivity.
+    - rewrite (sw_incomp less SWO a a' b H1 E2) in E1. discriminate.
+    - rewrite (sw_incomp less SWO a' a b H2 E1) in E2. discriminate.
+  Qed.
+
+  Lemma less_eqv_r a b b' : equal_ less b b' = true -> less a b = less a b'.
+  Proof.
+    intros H. apply equal_spec_ in H. destruct H as [H1 H2].
+    destruct (less a b) eqn:E1, (less a b') eqn:E2; try reflexivity.
+    - rewrite (sw_incomp less SWO a b' b E2 H2) in E1. discriminate.
+    - rewrite (sw_incomp less SWO a b b' E1 H1) in E2. discriminate.
+  Qed.
+
+  Lemma eqv_congr p a b : equal_ less a b = true -> equal_ less p a = equal_ less p b.
+  Proof.
+    intros H. unfold equal_. rewrite (less_eqv_r p a b H), (less_eqv_l a b p H). reflexivity.
+  Qed.
+
+  Lemma filter_eqv_head a t :
+    filter (equal_ less a) (a :: t) = a :: filter (equal_ less a) t.
+  Proof. cbn [filter]. rewrite eqv_refl. reflexivity. Qed.
+
+  (* sorted *)
+  Lemma insert_stable_sorted x l :
+    nondecreasing less l -> nondecreasing less (insert_stable less x l).
+  Proof.
+    unfold nondecreasing. induction l as [|y t IH]; intros Hs; cbn [insert_stable].
+    - constructor; constructor.
+    - apply StronglySorted_inv in Hs. destruct Hs as [Ht Hy]. destruct (less y x) eqn:E.
+      + constructor; [apply IH; exact Ht|].
+        apply (Permutation_Forall (Permutation_sym (insert_stable_perm less x t))).
+        constructor; [apply (sw_asym less SWO); exact E|exact Hy].
+      + constructor; [constructor; assumption|]. constructor; [exact E|].
+        rewrite Forall_forall in Hy. apply Forall_forall. intros b Hb.
+        apply (sw_incomp less SWO b y x); [apply Hy; exact Hb|exact E].
+  Qed.
+
+  Lemma slice_stable_sorted_ x : nondecreasing less (slice_stable less x).
+  Proof.
+    unfold slice_stable. induction x as [|a t IH]; cbn [fold_right].
+    - constructor.
+    - apply insert_stable_sorted. exact IH.
+  Qed.
+
+  (* stable: the items equivalent to p come out in the order in which they came in *)
+  Lemma insert_stable_filter p x l :
+    filter (equal_ less p) (insert_stable less x l) = filter (equal_ less p) (x :: l).
+  Proof.
+    induction l as [|y t IH]; [reflexivity|]. cbn [insert_stable].
+    destruct (less y x) eqn:E; [|reflexivity].
+    cbn [filter] in *. rewrite IH.
+    destruct (equal_ less p x) eqn:Ex; [|reflexivity].
+    destruct (equal_ less p y) eqn:Ey; [|reflexivity].
+    exfalso. rewrite eqv_sym in Ey. rewrite (less_eqv_l y p x Ey) in E.
+    apply equal_spec_ in Ex. destruct Ex as [Ex _]. rewrite Ex in E. discriminate.
+  Qed.
+
+  Lemma slice_stable_stable_ x p :
+    filter (equal_ less p) (slice_stable less x) = filter (equal_ less p) x.
+  Proof.
+    unfold slice_stable. induction x as [|a t IH]; [reflexivity|]. cbn [fold_right].
+    rewrite insert_stable_filter. cbn [filter]. rewrite IH. reflexivity.
+  Qed.
+
+  (* two sorted lists with the same subsequence of every equivalence class are equal *)
+  Lemma sorted_classes_eq : forall l1 l2, nondecreasing less l1 -> nondecreasing less l2 ->
+    (forall p, filter (equal_ less p) l1 = filter (equal_ less p) l2) -> l1 = l2.
+  Proof.
+    induction l1 as [|a t1 IH]; intros l2 H1 H2 HF.
+    - destruct l2 as [|b t2]; [reflexivity|]. specialize (HF b).
+      rewrite filter_eqv_head in HF. discriminate.
+    - destruct l2 as [|b t2]; [specialize (HF a); rewrite filter_eqv_head in HF; discriminate|].
+      assert (Hab : a = b).
+      { destruct (equal_ less a b) eqn:Eab.
+        - pose proof (HF a) as Ha. rewrite filter_eqv_head in Ha. cbn [filter] in Ha.
+          rewrite Eab in Ha. injection Ha as Ha _. exact Ha.
+        - exfalso.
+          assert (Ia : In a (b :: t2)).
+          { assert (Hx : In a (filter (equal_ less a) (b :: t2))).
+            { rewrite <- HF, filter_eqv_head. left; reflexivity. }
+            apply filter_In in Hx. exact (proj1 Hx). }
+          assert (Ib : In b (a :: t1)).
+          { assert (Hx : In b (filter (equal_ less b) (a :: t1))).
+            { rewrite HF, filter_eqv_head. left; reflexivity. }
+            apply filter_In in Hx. exact (proj1 Hx). }
+          apply StronglySorted_inv in H1. apply StronglySorted_inv in H2.
+          destruct H1 as [_ H1]. destruct H2 as [_ H2]. rewrite Forall_forall in H1, H2.
+          destruct Ia as [Ia|Ia]; [subst b; rewrite eqv_refl in Eab; discriminate|].
+          destruct Ib as [Ib|Ib]; [subst b; rewrite eqv_refl in Eab; discriminate|].
+          unfold equal_ in Eab. rewrite (H2 a Ia), (H1 b Ib) in Eab. discriminate. }
+      subst b. f_equal. apply IH.
+      + apply StronglySorted_inv in H1. exact (proj1 H1).
+      + apply StronglySorted_inv in H2. exact (proj1 H2).
+      + intros p. specialize (HF p). cbn [filter] in HF.
+        destruct (equal_ less p a); [injection HF as HF; exact HF|exact HF].
+  Qed.
+
+  Lemma slice_stable_unique_ x out : nondecreasing less out ->
+    (forall p, filter (equal_ less p) out = filter (equal_ less p) x) ->
+    out = slice_stable less x.
+  Proof.
+    intros Hs HF. apply sorted_classes_eq; [exact Hs|apply slice_stable_sorted_|].
+    intros p. rewrite slice_stable_stable_. apply HF.
+  Qed.
+
+  (* two sorted lists with the same NUMBER of items of every equivalence class are equivalent
+     position by position *)
+  Lemma sorted_counts_Forall2 : forall l1 l2, nondecreasing less l1 -> nondecreasing less l2 ->
+    (forall p, length (filter (equal_ less p) l1) = length (filter (equal_ less p) l2)) ->
+    Forall2 (fun a b => equal_ less a b = true) l1 l2.
+  Proof.
+    induction l1 as [|a t1 IH]; intros l2 H1 H2 HC.
+    - destruct l2 as [|b t2]; [constructor|]. specialize (HC b).
+      rewrite filter_eqv_head in HC. discriminate.
+    - destruct l2 as [|b t2]; [specialize (HC a); rewrite filter_eqv_head in HC; discriminate|].
+      apply StronglySorted_inv in H1. apply StronglySorted_inv in H2.
+      destruct H1 as [Ht1 H1]. destruct H2 as [Ht2 H2].
+      assert (Eab : equal_ less a b = true).
+      { rewrite Forall_forall in H1, H2.
+        assert (Ha : exists a', In a' (b :: t2) /\ equal_ less a a' = true).
+        { pose proof (HC a) as Ha. rewrite filter_eqv_head in Ha.
+          destruct (filter (equal_ less a) (b :: t2)) as [|a' r] eqn:EF; [discriminate|].
+          exists a'. apply filter_In. rewrite EF. left; reflexivity. }
+        assert (Hb : exists b', In b' (a :: t1) /\ equal_ less b b' = true).
+        { pose proof (HC b) as Hb. rewrite filter_eqv_head in Hb.
+          destruct (filter (equal_ less b) (a :: t1)) as [|b' r] eqn:EF; [discriminate|].
+          exists b'. apply filter_In. rewrite EF. left; reflexivity. }
+        destruct Ha as [a' [Ia Ea]]. destruct Hb as [b' [Ib Eb]].
+        assert (La : less a' b = false).
+        { destruct Ia as [Ia|Ia]; [subst a'; apply (sw_irrefl less SWO)|apply H2; exact Ia]. }
+        assert (Lb : less b' a = false).
+        { destruct Ib as [Ib|Ib]; [subst b'; apply (sw_irrefl less SWO)|apply H1; exact Ib]. }
+        apply equal_spec_. split.
+        - rewrite (less_eqv_l a a' b Ea). exact La.
+        - rewrite (less_eqv_l b b' a Eb). exact Lb. }
+      constructor; [exact Eab|]. apply IH; [exact Ht1|exact Ht2|].
+      intros p. specialize (HC p). cbn [filter] in HC. rewrite (eqv_congr p a b Eab) in HC.
+      destruct (equal_ less p b); cbn [length] in HC; congruence.
+  Qed.
+
+  Lemma Forall2_eqv_sorted : forall l m, Forall2 (fun a b => equal_ less a b = true) l m ->
+    nondecreasing less m -> nondecreasing less l.
+  Proof.
+    unfold nondecreasing. intros l m HF. induction HF as [|a b l m Eab HF IH]; intros Hs; [constructor|].
+    apply StronglySorted_inv in Hs. destruct Hs as [Hm Hb]. constructor; [apply IH; exact Hm|].
+    clear IH Hm. induction HF as [|y y' l m Ey HF IH]; [constructor|].
+    inversion Hb as [|? ? Hy' Hb']; subst. constructor; [|apply IH; exact Hb'].
+    rewrite (less_eqv_l y y' a Ey), (less_eqv_r y' a b Eab). exact Hy'.
+  Qed.
+
+  Lemma slice_spec_ x out :
+    slice_allowed less x out = true <-> (Permutation out x /\ nondecreasing less out).
+  Proof.
+    unfold slice_allowed. rewrite andb_true_iff, same_items_perm, all2_Forall2. split.
+    - intros [HP HF]. split.
+      + eapply perm_trans; [exact HP|apply slice_stable_perm].
+      + eapply Forall2_eqv_sorted; [exact HF|apply slice_stable_sorted_].
+    - intros [HP HS].
+      assert (HP' : Permutation out (slice_stable less x)).
+      { eapply perm_trans; [exact HP|apply Permutation_sym, slice_stable_perm]. }
+      split; [exact HP'|]. apply sorted_counts_Forall2; [exact HS|apply slice_stable_sorted_|].
+      intros p. apply Permutation_filter_length. exact HP'.
+  Qed.
+End StableSort.
+
+(* SliceStable: the result is a rearrangement of the input ... *)
+(* ... in which no later item is less than an earlier one ... *)
+Theorem slice_stable_sorted : forall less x, strict_weak less ->
+    nondecreasing less (slice_stable less x).
+Proof. intros less x SWO. apply slice_stable_sorted_. exact SWO. Qed.
+
+(* ... and the items of every equivalence class keep the order they had in the input. *)
+Theorem slice_stable_stable : forall less x, strict_weak less ->
+    forall p, filter (equal_ less p) (slice_stable less x) = filter (equal_ less p) x.
+Proof. intros less x SWO p. apply slice_stable_stable_. exact SWO. Qed.
+
+(* Completeness of the model: a sorted list that keeps every equivalence class in input order IS
+   slice_stable's output (being a permutation of the input follows, see below), so the model is
+   the specification of every correct stable sort, whatever its algorithm. *)
+Theorem slice_stable_unique : forall less x out, strict_weak less ->
+    nondecreasing less out ->
+    (forall p, filter (equal_ less p) out = filter (equal_ less p) x) ->
+    out = slice_stable less x.
+Proof. intros less x out SWO. apply slice_stable_unique_. exact SWO. Qed.
+
+Theorem stable_rearrangement_is_permutation : forall less x out, strict_weak less ->
+    nondecreasing less out ->
+    (forall p, filter (equal_ less p) out = filter (equal_ less p) x) ->
+    Permutation out x.
+Proof.
+  intros less x out SWO Hs HF. rewrite (slice_stable_unique less x out SWO Hs HF).
+  apply slice_stable_perm.
+Qed.
+
+(* Slice: the allowed results are exactly the sorted permutations of the input, i.e. the
+   model's output up to the order inside each class of equivalent items. *)
+Theorem slice_spec : forall less x out, strict_weak less ->
+    (slice_allowed less x out = true <-> (Permutation out x /\ nondecreasing less out)).
+Proof. intros less x out SWO. apply slice_spec_. exact SWO. Qed.
+
+(* the stable result is itself allowed for Slice *)
+Theorem slice_stable_allowed : forall less x, strict_weak less ->
+    slice_allowed less x (slice_stable less x) = true.
+Proof.
+  intros less x SWO. apply (slice_spec less x _ SWO).
+  split; [apply slice_stable_perm|apply slice_stable_sorted; exact SWO].
+Qed.
+
+(* coarse order (key = item / 10, the unit digit is a tag that the order does not see): ties
+   keep their input order; the reversed order; what Slice may and may not return *)
+Example slice_stable_runs :
+  let less := fun a b => Z.quot a 10 <? Z.quot b 10 in
+  slice_stable less [31; 12; 30; 11; 32; 10; 25] = [12; 11; 10; 25; 31; 30; 32] /\
+  slice_stable (reverse_less less) [31; 12; 30; 11; 32; 10; 25] = [31; 30; 32; 25; 12; 11; 10] /\
+  slice_stable less [] = [] /\
+  slice_allowed less [31; 12; 30; 11] [11; 12; 30; 31] = true /\
+  slice_allowed less [31; 12; 30; 11] [12; 31; 30; 11] = false /\
+  slice_allowed less [31; 12; 30; 11] [12; 11; 31; 31] = false.
+Proof. vm_compute. repeat split; reflexivity. Qed.
